@@ -45,6 +45,9 @@ var fFaults = []string{"", "", "", "exec-fail", "reply-lost", "cancel-after-exec
 
 func GenInProc(t *rapid.T) *FCase {
 	c := &FCase{Batch: rapid.SampledFrom([]int{0, 1, 2, 5}).Draw(t, "batch")}
+	if rapid.IntRange(0, 3).Draw(t, "busy") == 0 {
+		c.BusyMs = rapid.SampledFrom([]int{1, 5, 10}).Draw(t, "busyMs")
+	}
 	nc := rapid.IntRange(1, 3).Draw(t, "cycles")
 	for i := 0; i < nc; i++ {
 		n := rapid.IntRange(1, 10).Draw(t, "nops")
@@ -66,6 +69,9 @@ func GenInProc(t *rapid.T) *FCase {
 				}
 			}
 			op.Fault = rapid.SampledFrom(fFaults).Draw(t, "fault")
+			if op.K == "append" && c.BusyMs > 0 && rapid.IntRange(0, 3).Draw(t, "big") == 0 {
+				op.BigKB = rapid.SampledFrom([]int{64, 1024, 4096, 16384}).Draw(t, "bigKB")
+			}
 			ops = append(ops, op)
 		}
 		c.Cycles = append(c.Cycles, ops)
